@@ -60,12 +60,14 @@ package tracer
 // (That a wait ends when the context does is the select statement; not proved.)
 //@ func (*Tracer).Await
 //@   requires ctx != nil
-//@   modifies held
+//@   modifies held, selWait
 //@   ensures @disabled t == nil ==> result_0 == nil && result_1 != nil
 //@   ensures @cleared t != nil && !atlock(has(t.traces, testName)) ==> result_0 == nil && result_1 != nil
 //@   ensures @slot t != nil && result_0 != nil ==> atlock(has(t.traces, testName)) && result_0 == fieldaddr(atlock(t.traces[testName]), trace) && result_1 == nil
 //@   ensures @completed t != nil && atlock(has(t.traces, testName)) && atlock(t.traces[testName].done) == nil ==> result_0 == fieldaddr(atlock(t.traces[testName]), trace) && result_1 == nil
 //@   ensures @exclusive !(result_0 != nil && result_1 != nil)
+//@   ensures @waits-on t != nil && atlock(has(t.traces, testName)) && atlock(t.traces[testName].done) != nil ==>
+//@        selWait[0] == atlock(t.traces[testName].done) && selWait[1] == ctxDone(ctx) //# a pending wait blocks on the slot's channel and on the caller's context, nothing else
 
 // ---- builder: one completion per traced operation, nothing recorded afterwards (C16) ----
 // cplN[c]: number of traces handed to collector c; cplName / cplEvents: test name and event
